@@ -22,6 +22,9 @@ pub enum Tm {
     Fn(String, Vec<Tm>),
     /// elements, optional tail
     List(Vec<Tm>, Option<Box<Tm>>),
+    /// numbers outside the exact n*2^e encoding (only compared for identity)
+    BigInt(i64),
+    BigFlt(u64),
     /// something the abstraction cannot represent (malformed list cell,
     /// binding cycle, number outside the exact encoding, raw Nil ...)
     Bad(String),
@@ -40,6 +43,7 @@ pub fn tm_from_json(v: &Value) -> Tm {
         "atom" => Tm::Atom(s()),
         "int" => norm_int(n(), e()),
         "flt" => norm_flt(n(), e(), s()),
+        "ftx" => tm_of_f64(s().parse::<f64>().unwrap_or(f64::NAN)),
         "var" => Tm::Var(n() as usize, s()),
         "anon" => Tm::Anon,
         "cx" => Tm::Cx(s(), seq("a")),
@@ -49,6 +53,8 @@ pub fn tm_from_json(v: &Value) -> Tm {
             Tm::List(seq("a"), t.into_iter().next().map(Box::new))
         }
         "bad" => Tm::Bad(s()),
+        "bigint" => Tm::BigInt(s().parse().unwrap_or(0)),
+        "bigflt" => Tm::BigFlt(s().parse().unwrap_or(0)),
         other => Tm::Bad(format!("unknown kind {}", other)),
     }
 }
@@ -67,6 +73,8 @@ pub fn tm_to_json(t: &Tm) -> Value {
             "a": a.iter().map(tm_to_json).collect::<Vec<_>>(),
             "t": t.iter().map(|x| tm_to_json(x)).collect::<Vec<_>>()}),
         Tm::Bad(s) => json!({"k": "bad", "s": s}),
+        Tm::BigInt(i) => json!({"k": "bigint", "s": i.to_string()}),
+        Tm::BigFlt(b) => json!({"k": "bigflt", "s": b.to_string()}),
     }
 }
 
@@ -85,6 +93,8 @@ pub fn show(t: &Tm) -> String {
             match t { Some(t) => format!("[{} | {}]", els, show(t)), None => format!("[{}]", els) }
         }
         Tm::Bad(s) => format!("<BAD {}>", s),
+        Tm::BigInt(i) => format!("{}", i),
+        Tm::BigFlt(b) => format!("{:?}", f64::from_bits(*b)),
     }
 }
 
@@ -118,7 +128,7 @@ pub fn tm_of_i64(i: i64) -> Tm {
     if i == 0 { return Tm::Int(0, 0); }
     let mut n = i; let mut e = 0;
     while n % 2 == 0 { n /= 2; e += 1; }
-    if n.abs() >= (1 << 31) { return Tm::Bad(format!("int {}", i)); }
+    if n.abs() >= (1 << 31) { return Tm::BigInt(i); }
     Tm::Int(n, e)
 }
 pub fn tm_of_f64(f: f64) -> Tm {
@@ -134,7 +144,7 @@ pub fn tm_of_f64(f: f64) -> Tm {
     let frac = (bits & 0xf_ffff_ffff_ffff) as i64;
     let (mut m, mut e) = if exp == 0 { (frac, -1074) } else { (frac | (1 << 52), exp - 1075) };
     while m % 2 == 0 { m /= 2; e += 1; }
-    if m >= (1 << 31) { return Tm::Bad(format!("flt {:?}", f)); }
+    if m >= (1 << 31) { return Tm::BigFlt(f.to_bits()); }
     Tm::Flt(sign * m, e, "".into())
 }
 
@@ -172,6 +182,8 @@ pub fn build(t: &Tm) -> Unifiable {
             }
             node
         }
+        Tm::BigInt(i) => Unifiable::SInteger(*i),
+        Tm::BigFlt(b) => Unifiable::SFloat(f64::from_bits(*b)),
         Tm::None | Tm::Bad(_) => panic!("harness: cannot build {:?}", t),
     }
 }
